@@ -267,6 +267,7 @@ def shards(tier, seed):
     sh += [("explore", "P3", "v20", "all", "debuglog"), ("forced", "P2", "v32", "ctl", "debuglog"), ("explore", "P1", "m800", "ctl", "debuglog")]
     for pers in ("v20", "v32"):
         sh.append(("twins", "P2", pers, "all"))
+        sh.append(("online-edits", "P3", pers, "all"))
     return sh
 
 
@@ -386,9 +387,101 @@ def twins_shard(rep, pers):
     rep.sample({"uploads_in_one_process": len(seq), "personality": pers})
 
 
+EDITS = ("none", "program-deleted", "program-renamed", "program-added", "no-programs", "tags-changed", "udt-redefined", "task-deleted")
+
+
+def edited_p3(edit):
+    """P3 after an on-line edit of the project."""
+    from vmc.ref.projects import TagDef
+    from vmc.ref.projgen import layout
+
+    proj = projgen.build("P3", 0)
+
+    def drop_program(name):
+        proj.symbols[:] = [s for s in proj.symbols if s.name != "Program:" + name]
+        proj.programs.pop(name, None)
+
+    if edit == "program-deleted":
+        drop_program("Second_Prog")
+    elif edit == "program-renamed":
+        for s in proj.symbols:
+            if s.name == "Program:MainProgram":
+                s.name = "Program:Main2"
+        lst = proj.programs.pop("MainProgram")
+        for s in lst:
+            s.scope = "Main2"
+        proj.programs["Main2"] = lst
+    elif edit == "program-added":
+        proj.add(TagDef("Program:Extra", None, (), 450, kind="program", symbol_type=0x1068))
+        proj.tag("x_real", "REAL", scope="Extra", instance_id=1)
+        proj.add(TagDef("Routine:Go", None, (), 2, scope="Extra", kind="routine", symbol_type=0x106D))
+    elif edit == "no-programs":
+        for n in list(proj.programs):
+            drop_program(n)
+    elif edit == "tags-changed":
+        proj.symbols[:] = [s for s in proj.symbols if s.name not in ("ctl_ary", "alias_tag")]
+        proj.tag("ctl_new", "REAL", (3,), instance_id=460)
+        old = next(s for s in proj.symbols if s.name == "ctl_dint")
+        proj.symbols[proj.symbols.index(old)] = TagDef("ctl_dint", "INT", (2,), old.instance_id)
+    elif edit == "udt-redefined":
+        udt = layout("ScopeUDT", 0x311, 0xC0F1, [("a", "DINT", 0), ("extra", "INT", 2), ("f", "BOOL", 0), ("g", "BOOL", 0), ("s", proj.types[0x311].members[-1].typ, 0)])
+        for s in list(proj.all_tags()):
+            if s.typ is proj.types[0x311]:
+                s.typ = udt
+                s.data = bytearray(s.nbytes)
+        proj.types[0x311] = udt
+    elif edit == "task-deleted":
+        proj.symbols[:] = [s for s in proj.symbols if s.name != "Task:Periodic"]
+    return proj
+
+
+def online_edits_shard(rep, pers, tier):
+    """E2: one driver, the project edited on-line between uploads.  After every get_tag_list the driver mirrors the project as it is
+    NOW (programs that were deleted or renamed are not asked for again, changed definitions are re-read); every ordered pair of
+    project states, and triples that return to the first state."""
+    import pycomm3
+
+    hist = [(a, b) for a in EDITS for b in EDITS if a != b] + [(a, b, a) for a in EDITS[:5] for b in EDITS[:5] if a != b]
+    for h in hist:
+        for how in ("*", "ctl"):
+            if how == "ctl" and len(h) == 3:
+                continue
+            ctl = logix.LogixController(edited_p3(h[0]), pers)
+            t = enip.Target(ctl, keep_cip=False)
+            probs = []
+            with net.World(t, io_budget=2_000_000):
+                d = pycomm3.LogixDriver("10.0.0.1", init_program_tags=(how == "*"))
+                o = call(d.open)
+                if o != ("ok", True):
+                    probs.append(("open", f"open() -> {o!r:.100}"))
+                else:
+                    for step, e in enumerate(h[1:], 1):
+                        proj = edited_p3(e)
+                        ctl.project = proj
+                        r = call(d.get_tag_list, "*") if how == "*" else call(d.get_tag_list)
+                        if r[0] != "ok":
+                            probs.append(("refresh-failed", f"get_tag_list after the edit {h[step - 1]!r} -> {e!r}: {r!r:.140}"))
+                            break
+                        got = canon_result(d)
+                        want = expected(proj, pers, "all" if how == "*" else "ctl")
+                        got["types"] = {k: v for k, v in got["types"].items() if k in want["types"]}  # definitions no longer used may linger
+                        df = diff(got, want)
+                        if df:
+                            probs.append((classify(df[0]), f"after the edit {h[step - 1]!r} -> {e!r}: {df[0]}"))
+                            break
+                    call(d.close)
+            rep.case(("online-edits", pers, h, how), outcome="ok:" + how if not probs else probs[0][0])
+            for clause, detail in probs[:1]:
+                rep.violation(f"upload/after-online-edit/{clause}", f"P3/{pers} history {list(h)!r} ({'all scopes' if how == '*' else 'controller scope'}): {detail}", {"cfg": ["P3", pers, "online-edits"], "choices": [], "force": None})
+    rep.sample({"online_edit_histories": len(hist), "personality": pers, "edits": list(EDITS)})
+
+
 def run_shard(shard, tier, seed):
     rep = Report()
     kind, pn, pers, scope = shard[:4]
+    if kind == "online-edits":
+        online_edits_shard(rep, pers, tier)
+        return rep
     part = (shard[4], PARTS) if len(shard) > 4 else None
     if kind == "twins":
         twins_shard(rep, pers)
@@ -438,6 +531,12 @@ def run_shard(shard, tier, seed):
 
 def replay(r):
     cfg = r["cfg"]
+    if cfg[2] == "online-edits":
+        rep = Report()
+        online_edits_shard(rep, cfg[1], "quick")
+        for s, vs in rep.violations.items():
+            print("  violates:", s, "::", vs[0].msg[:300])
+        return not rep.violations
     sc = scenario_for(cfg[0], cfg[1], cfg[2], force=tuple(r["force"]) if r.get("force") else None)
     ctx = Ctx(r.get("choices") or [])
     out = sc(ctx)
